@@ -1,5 +1,6 @@
 import Driver.CacheDrv
 import Driver.TableDrv
+import Driver.Lin
 import CacheVerif.Model.CacheOf
 import CacheVerif.Spec.TTL
 /-!
@@ -132,4 +133,7 @@ def main (args : List String) : IO Unit := do
   let stdin ← IO.getStdin
   let stdout ← IO.getStdout
   let stderr ← IO.getStderr
+  if args.contains "--lin" then
+    Driver.linLoop stdin stdout {}
+    return
   Driver.loop (args.contains "--spec") stdin stdout stderr .none 0 false
